@@ -73,11 +73,16 @@ File(fk, sts, nonce, pt) == Cat(<<Header(fk, sts), nonce, Stream(PayloadKey(fk, 
 DrawRoles(r) == CASE r.k = "X" -> <<"eph">> [] r.k = "E" -> <<"eph">> [] r.k = "R" -> <<"oaepseed">>
                   [] r.k = "S" -> <<"salt", "label">>        \* the label draw is not part of the file
 DrawSize(role) == CASE role = "filekey" -> 16 [] role = "nonce" -> 16 [] role = "eph" -> 32
-                    [] role = "oaepseed" -> 32 [] role = "salt" -> 16 [] role = "label" -> 16
+                    [] role = "oaepseed" -> 32 [] role = "salt" -> 16 [] role = "label" -> 16 [] role = "word" -> 2
 RECURSIVE PlanFrom(_, _)
 PlanFrom(rs, i) == IF i > Len(rs) THEN <<>> ELSE [j \in 1..Len(DrawRoles(rs[i])) |-> [role |-> DrawRoles(rs[i])[j], rcp |-> i]] \o PlanFrom(rs, i + 1)
 \* the sequence of CSPRNG draws of one Encrypt call: file key, per recipient draws in order, payload nonce
 DrawPlan(rs) == <<[role |-> "filekey", rcp |-> 0]>> \o PlanFrom(rs, 1) \o <<[role |-> "nonce", rcp |-> 0]>>
+\* age -p answered with an empty line: the command makes up the passphrase itself, ten words of the 2048-word list, each
+\* from a draw of its own (two bytes, big-endian, modulo 2048), before Encrypt draws for the passphrase recipient
+CliWords == 10
+CliAutoRecipient == [k |-> "S", id |-> "auto", wf |-> 18]
+CliPassphrasePlan == [i \in 1..CliWords |-> [role |-> "word", rcp |-> 0 - i]] \o DrawPlan(<<CliAutoRecipient>>)
 DrawIndex(rs, i, role) == CHOOSE n \in 1..Len(DrawPlan(rs)) : DrawPlan(rs)[n].rcp = i /\ DrawPlan(rs)[n].role = role
 D(n) == Atom("draw" \o ToString(n))
 
